@@ -196,11 +196,14 @@ fn gen_impl_delegation_trait_defs(
                 &FnInputMode::RawTrait(LiteralAttrs(&[])),
             )?;
 
+            // as visible as the traits it belongs to, not more
+            let delegation_vis = &trait_copy.vis;
+
             Ok(Some(quote! {
                 #(#impl_sub_attributes)*
                 #trait_def
 
-                pub trait #delegation_ident<T> {
+                #delegation_vis trait #delegation_ident<T> {
                     type Target: #impl_trait_ident<T>;
                 }
             }))
